@@ -174,7 +174,7 @@ def rule_X5(ctx, F):
     ctx.ob(ok, "fill_one_block-position-reset-on-block-edge", rst[0][2] if rst else f1.loc, "position reset to 0 on the position == BLOCK_LEN edge")
     adv = [(b, v, w) for b, name, v, w in ws if name == "position_within_block" and v != ("const", None, 0)]
     # take = min(buf.len(), block[position..].len()); the second operand is canonicalised by val() to block.len() - position
-    TAKE = ("call", name_ends("cmp::min"), (("call", name_ends("::len"), (P.arg("buf"),)), W(pred=lambda e: isinstance(e, tuple) and e[0] in ("call", "bin") and "position_within_block" in show(e) or (isinstance(e, tuple) and e[0] == "call"))))
+    TAKE = ("call", name_ends("cmp::min"), (("call", name_ends("::len"), (P.arg("buf"),)), W(pred=lambda e: isinstance(e, tuple) and e[0] in ("call", "bin"))))
     ok = len(adv) == 1 and unify(P.bin("Add", P.self_("position_within_block"), P.cast(TAKE, "u8")), adv[0][1]) is not None
     ctx.ob(ok, "fill_one_block-position-advances-by-take", adv[0][2] if adv else f1.loc, "position += %s" % [show(a[1])[:120] for a in adv])
     rb = [c for c in calls_of(f1) if unify(P.call("Output::root_output_block", P.self_("inner")), c[1]) is not None]
